@@ -677,9 +677,16 @@ def iterDrive (cx : Ctx) (r : Nat) (writes : Bool) : List Char → View.Win → 
     let r0 := w.rows.getD r []
     if c == 'L' then iterDrive cx r writes cs vI vS k w (outI ++ [s!"L{vI.l}"]) (outS ++ [s!"L{vS.l}"]) evI evS made
     else if c == 'H' then iterDrive cx r writes cs vI vS k w (outI ++ [s!"H{vI.l}:{vI.l}"]) (outS ++ [s!"H{vS.l}:{vS.l}"]) evI evS made
+    else if c == 'C' then
+      iterDrive cx r writes cs ⟨vI.s + vI.l, 0⟩ ⟨vS.s + vS.l, 0⟩ k w (outI ++ [s!"C{vI.l}"]) (outS ++ [s!"C{vS.l}"]) evI evS made
     else
-      let (yI, vI') := if c == 'F' then View.next vI else View.nextBack vI
-      let (yS, vS') := if c == 'F' then View.next vS else View.nextBack vS
+      let stepOf (v : View.Win) : Option Nat × View.Win :=
+        if c == 'F' then View.next v else if c == 'B' then View.nextBack v
+        else if c == 'N' then View.nth v 1 else if c == 'Z' then View.nth v 1000
+        else if c == 'R' then View.nthBack v 1 else if c == 'T' then View.lastOf v
+        else (none, v)
+      let (yI, vI') := stepOf vI
+      let (yS, vS') := stepOf vS
       let tag := String.singleton c
       match yI, yS with
       | some pI, some pS =>
